@@ -1,7 +1,11 @@
 import WcModel.Properties.C03
+#print axioms WcModel.C03.charEq_dot
+#print axioms WcModel.C03.noDot_fails_at_dot
+#print axioms WcModel.C03.headTok_none_of_isEmpty
+#print axioms WcModel.C03.isEmpty_of_headTok_none
+#print axioms WcModel.C03.comp_at_dot
 #print axioms WcModel.C03.C03_upper_fn
 #print axioms WcModel.C03.C03_lower_fn
-#print axioms WcModel.C03.comp_at_dot
 #print axioms WcModel.C03.segment_star_skips_dot
 #print axioms WcModel.C03.globstar_stops_before_hidden
 #print axioms WcModel.C03.globstar_skips_leading_dot
